@@ -3,11 +3,14 @@ EXTENDS MlsGroup
 
 CONSTANT Depth      \* simulation: behaviours are printed when they reach this length
 
+\* bounded-depth exhaustive exploration for instances whose full graph is too large
+LevelBound == TLCGet("level") <= Depth
+
 \* one JSON line per simulated behaviour (spec -> impl replay)
 EmitAtDepth ==
     (TLCGet("level") = Depth) =>
-        PrintT(<<"REPLAY", ToJson([cfg |-> [pathReq |-> opt.pathReq, enc |-> opt.enc, parties |-> Parties, creator |-> Creator],
-                                   steps |-> hist])>>)
+        PrintT(<<"REPLAY", ToJson([cfg |-> [pathReq |-> opt.pathReq, enc |-> opt.enc, retention |-> Retention, window |-> Window, parties |-> Parties, creator |-> Creator],
+                                   steps |-> [i \in 1..Len(hist) |-> hist[i] @@ [aux |-> haux[i]]]])>>)
 
 (***************************************************************************)
 (* Simulation shaping.  SimNext is a sub-relation of Next (every SimNext   *)
@@ -34,7 +37,7 @@ DsEnabled(n) ==
 ProgressEnabled ==
     \/ \E n \in 1..Len(commits) : DsEnabled(n)
     \/ \E p \in Parties : HasGroup(p) /\ grp[p].pend # 0 /\ IsWinner(grp[p].pend)
-    \/ \E q \in Parties : HasGroup(q) /\ \E n \in CurrentWinnerFor(q) : commits[n].by # q
+    \/ \E q \in Parties : HasGroup(q) /\ \E n \in CurrentWinnerFor(q) : commits[n].by # q /\ n \notin grp[q].seenC
     \/ \E q \in Parties : ~HasGroup(q) /\ \E n \in 1..Len(commits) : IsWinner(n) /\
             \E i \in 1..Len(commits[n].added) : kps[commits[n].added[i][1]].owner = q /\ ~kps[commits[n].added[i][1]].used
     \/ \E q \in Parties : HasGroup(q) /\ \E j \in 1..Len(props) : props[j].ks = grp[q].ks /\ props[j].by # q /\ j \notin grp[q].cache
@@ -42,7 +45,8 @@ ProgressEnabled ==
 Progress ==
     \/ \E n \in 1..Len(commits) : DsEnabled(n) /\ DsChoose(n)
     \/ \E p \in Parties : HasGroup(p) /\ grp[p].pend # 0 /\ ApplyPending(p)
-    \/ \E q \in Parties : HasGroup(q) /\ \E n \in CurrentWinnerFor(q) : commits[n].by # q /\ DeliverCommit(q, n)
+    \/ \E q \in Parties : HasGroup(q) /\ \E n \in CurrentWinnerFor(q) : commits[n].by # q /\ n \notin grp[q].seenC /\ DeliverCommit(q, n)
+    \/ \E q \in Parties : HasGroup(q) /\ (\E n \in CurrentWinnerFor(q) : grp[q].leaf \in commits[n].removed) /\ Retire(q)
     \/ \E q \in Parties : \E n \in 1..Len(commits) : JoinWelcome(q, n)
     \/ \E q \in Parties : HasGroup(q) /\ \E j \in 1..Len(props) : props[j].ks = grp[q].ks /\ DeliverProposal(q, j)
 
@@ -54,24 +58,59 @@ PickItem(g) ==
     IF RandomElement(1..(10 + Z)) <= 8 /\ ValidByValue(g) # {} THEN RandomElement(ValidByValue(g)) ELSE RandomElement(ByValueItems(g))
 PickByVal(g) == LET k == RandomElement(0..(ByValueMax + Z)) IN [i \in 1..k |-> PickItem(g)]
 
-SimOther ==
+CONSTANTS WPropose, WCommit, WApp, WStore      \* category weights (percent) of non-progress steps
+
+Mem == {p \in Parties : HasGroup(p)}
+
+Filler ==   \* always enabled once somebody is a member: a failing or stale call (state-preservation checks)
+    \/ \E p \in {RandomElement({p \in Parties : HasGroup(p) /\ Z = 0})} : ApplyPending(p)
+    \/ Len(commits) > 0 /\ \E q \in {RandomElement({p \in Parties : HasGroup(p) /\ Z = 0})} :
+            \E n \in {RandomElement(1..Len(commits))} : DeliverCommit(q, n)
+
+SimPropose ==
     \/ \E p \in Parties : GenKeyPackage(p)
-    \/ \E p \in Parties : \E i \in 1..Len(kps) : ProposeAdd(p, i)
-    \/ \E p \in Parties : HasGroup(p) /\ \E l \in {RandomElement(LeafSlots(grp[p].tree))} : ProposeRemove(p, l)
-    \/ \E p \in Parties : ProposeUpdate(p)
-    \/ \E p \in Parties : HasGroup(p) /\ \E bv \in {PickByVal(grp[p])} : Commit(p, bv)
-    \/ \E p \in Parties : HasGroup(p) /\ \E bv \in {PickByVal(grp[p])} : Commit(p, bv)
-    \/ \E p \in Parties : ClearPending(p)
-    \/ \E p \in {RParty} : ApplyPending(p)
-    \/ Len(commits) > 0 /\ \E q \in {RParty} : \E n \in {RandomElement(1..Len(commits))} : DeliverCommit(q, n)
-    \/ Len(props) > 0 /\ \E q \in {RParty} : \E j \in {RandomElement(1..Len(props))} : DeliverProposal(q, j)
+    \/ \E p \in {RandomElement(Mem \cup {Creator : z \in {Z}})} : \E i \in 1..Len(kps) : ProposeAdd(p, i)
+    \/ \E p \in Mem : \E l \in {RandomElement(LeafSlots(grp[p].tree))} : ProposeRemove(p, l)
+    \/ \E p \in Mem : ProposeUpdate(p)
+    \/ \E p \in Mem : ProposeUpdate(p)
+
+SimCommit ==
+    \/ \E p \in Mem : \E bv \in {PickByVal(grp[p])} :
+            \E dt \in {RandomElement({b \in BOOLEAN : Z = 0 /\ (b => ("detached" \in Features /\ RandomElement(1..(3 + Z)) = 1))})} : Commit(p, bv, dt)
+    \/ \E p \in Mem : ClearPending(p)
+    \/ \E p \in Mem : \E n \in det[p] : ApplyDetached(p, n)
+
+SimApp ==
+    \/ \E p \in Mem : \E k \in {RandomElement({1, 1, 1, 2, 3, Window, Window + 1, Window + 2, 1 + Z})} : Encrypt(p, k)
+    \/ Len(apps) > 0 /\ \E q \in Mem : \E a \in {RandomElement(1..Len(apps))} :
+            \E gen \in {RandomElement({apps[a].lo, apps[a].hi, RandomElement(apps[a].lo..apps[a].hi)})} : DeliverApp(q, a, gen)
+    \/ \E q \in Mem : \E a \in {a \in 1..Len(apps) : apps[a].ks = grp[q].ks \/ apps[a].epoch + Retention + 1 >= grp[q].epoch} :
+            \E gen \in {RandomElement({apps[a].lo, apps[a].hi, RandomElement(apps[a].lo..apps[a].hi)})} : DeliverApp(q, a, gen)
+
+SimStore ==
+    \/ \E p \in Mem : Write(p)
+    \/ \E p \in Mem : Write(p)
+    \/ \E p \in Parties : Load(p)
+
+SimMisc ==
+    \/ Filler
     \/ \E q \in Parties : Retire(q)
+    \/ Len(props) > 0 /\ \E q \in Mem : \E j \in {RandomElement(1..Len(props))} : DeliverProposal(q, j)
+    \/ \E p \in Parties : GenKeyPackage(p)
+
+SimOther ==
+    \E c \in {RandomElement(1..(100 + Z))} :
+        IF c <= WPropose THEN SimPropose
+        ELSE IF c <= WPropose + WCommit THEN SimCommit
+        ELSE IF c <= WPropose + WCommit + WApp /\ "apps" \in Features THEN SimApp
+        ELSE IF c <= WPropose + WCommit + WApp + WStore /\ "storage" \in Features THEN SimStore
+        ELSE SimMisc
 
 SimNext ==
     \E r \in {RandomElement(1..(100 + Z))} :
         IF r <= WProgress /\ ProgressEnabled THEN Progress ELSE SimOther
 
-SimSpec == Init /\ [][SimNext]_vars
+SimSpec == Init /\ [][Logged(SimNext)]_vars
 
 \* witnesses that the interesting mechanisms were exercised (vacuity guards; see DESIGN section 7)
 HasInteriorBlank(tree) == \E l \in LeafSlots(tree) : IsBlank(Node(tree, 2 * l))
